@@ -1,5 +1,7 @@
-import DcmVerif.Props.SourceMeta
-import DcmVerif.Props.SourceStack
+import DcmVerif.Props.Source_classes
+import DcmVerif.Props.Source_simplify
+import DcmVerif.Props.Source_shapes
+import DcmVerif.Props.Source_lookup
 import DcmVerif.Proofs.EndToEnd
 import DcmVerif.Props.C01_stack
 /-! Property theorems for C01. Statements only; proofs are by reference to `Proofs/`. -/
